@@ -486,6 +486,7 @@ def run(ctx):
                    "listener adds never reach the tree - such a command is reported as not defined" % ci.short)
         else:
             r.ok("%s: CONFIG is dispatched before %d uses of the command configuration" % (ci.short, len(uses)))
+    ctx.borrow("c05", "C05-R8", "C03-R17", "'first parsable default': whether a default sub-command can parse the line is decided on a parser of its own - a configuration does not keep one default parser for all commands and threads (an overlapping parse makes a parsable default count as unparsable) (same rule as C05-R8)")
     return ctx.results
 
 
